@@ -61,19 +61,8 @@ R_SYMM_OWN_OWNER = {   # commit e8061ac: p.friends.add(p); p.friends.clear(); p.
             {'k': 'coll_remove', 'o': 0, 'key': [0, False], 'items': [0], 'via': 'single', 'rs': 7},       # the loud sibling: INSERT of the existing row
             {'k': 'coll_set', 'o': 0, 'key': [0, False], 'items': [0], 'via': 'list', 'rs': 8},
             {'k': 'commit', 'rs': 9}]}
-R_O2M_ASSIGN_TWICE = {   # b = B(); a.bs.add(b); a.bs.clear(); b.a = a; list(a.bs) raised AssertionError (never-saved item recorded as removed by Set.__set__)
-    'schema': {'ents': [dict(_E1), dict(_E1)],
-               'rels': [{'kind': 'm2o', 'sym': False, 'a': {'ent': 1, 'coll': False, 'req': False, 'opt_casc': None},
-                         'b': {'ent': 0, 'coll': True, 'req': False, 'opt_casc': None}}]},
-    'ops': [{'k': 'create', 'oid': 0, 'e': 0, 'pk': 1, 'scalars': {}, 'refs': {}, 'colls': {}, 'rs': 1},
-            {'k': 'commit', 'rs': 2},
-            {'k': 'create', 'oid': 1, 'e': 1, 'pk': 9, 'scalars': {}, 'refs': {}, 'colls': {}, 'noreads': True, 'rs': 3},
-            {'k': 'coll_add', 'o': 0, 'key': [0, True], 'items': [1], 'via': 'single', 'noreads': True, 'rs': 4},
-            {'k': 'coll_clear', 'o': 0, 'key': [0, True], 'noreads': True, 'rs': 5},
-            {'k': 'set_ref', 'o': 1, 'key': [0, False], 'v': 0, 'rs': 6}]}
 REGRESSIONS = [('set-after-unflushed-remove', R_SET_AFTER_REMOVE), ('one-to-many-remove-count', R_COUNT_TWICE),
                ('symmetric-collection-own-owner (commit e8061ac)', R_SYMM_OWN_OWNER)]
-REGRESSIONS_PENDING = [('one-to-many-assignment-recorded-twice (fixes/C10-one-to-many-assignment-double-bookkeeping.diff)', R_O2M_ASSIGN_TWICE)]
 
 # ---------------------------------------------------------------- part B: one watched collection
 
@@ -670,7 +659,43 @@ def witness_count_blind_write(ctx):
         db.disconnect()
 
 
+def regression_o2m_assignment_recorded_twice(ctx):
+    """commit a8e2f48 (found by `VERIF_SEED=3 ./check C10 --tier thorough`): Set.__set__ of a one-to-many collection recorded the leaving /
+    entering items a second time after reverse.__set__() had done it: `b = B(); a.bs.add(b); a.bs.clear(); b.a = a; list(a.bs)` raised
+    AssertionError (a never-saved item in `removed`, then in the collection without being in `added`)"""
+    db = Database()
+    class A(db.Entity):
+        id = PrimaryKey(int)
+        bs = Set('B')
+    class B(db.Entity):
+        id = PrimaryKey(int)
+        a = Optional(A)
+    db.bind('sqlite', ':memory:'); db.generate_mapping(create_tables=True)
+    calls = ['b = B(id=9)', 'a.bs.add(b)', 'a.bs.clear()', 'b.a = a', 'sorted(a.bs), a.bs.count(), len(a.bs)']
+    try:
+        with db_session: A(id=1); B(id=1, a=1)
+        for variant in ('clear', 'assign'):
+            try:
+                with db_session:
+                    a = A[1]; b = B(id=9); a.bs.add(b)
+                    if variant == 'clear': a.bs.clear(); exp = [9]
+                    else: a.bs = [B[1]]; exp = [1, 9]
+                    b.a = a
+                    sd = a._vals_[A.bs]
+                    ghost = sorted(x.id for x in (sd.removed or ()) if x._status_ == 'created')
+                    got = {'items': sorted(x.id for x in a.bs), 'count': a.bs.count(), 'len': len(a.bs), 'never-saved-in-removed': ghost}
+                    rollback()
+            except Exception as e: got = 'raised:' + type(e).__name__
+            ctx.case({'regression': 'o2m-assignment-recorded-twice', 'variant': variant}, kind='regression')
+            want = {'items': exp, 'count': len(exp), 'len': len(exp), 'never-saved-in-removed': []}
+            if got != want:
+                ctx.violation('a read inside the session does not reflect what the session did', {'calls': calls, 'variant': variant},
+                              observed=got, expected=want, key='coll-iter:o2m')
+    finally: db.disconnect()
+
+
 def regressions(ctx):
+    regression_o2m_assignment_recorded_twice(ctx)
     witness_count_blind_write(ctx)
     witness_delete_unloaded(ctx)
     witness_unflushed_parameter(ctx)
@@ -687,9 +712,9 @@ def regressions(ctx):
 
 def run(ctx):
     regressions(ctx)
-    setdata_tie(ctx, ctx.scale(100, 900), ctx.scale(14, 20))
-    key_tie(ctx, ctx.scale(100, 900), ctx.scale(14, 20))
-    S.explore(ctx, 'C10', ctx.scale(200, 1300), ctx.scale(22, 30))
+    setdata_tie(ctx, ctx.scale(100, 700), ctx.scale(14, 20))
+    key_tie(ctx, ctx.scale(100, 700), ctx.scale(14, 20))
+    S.explore(ctx, 'C10', ctx.scale(200, 1000), ctx.scale(22, 30))
 
 
 def replay(ctx, data):
